@@ -70,3 +70,16 @@ def run(check: Check, world_spec, monitor_spec, K: int, H: int, needs: Sequence[
             )
         )
     return res
+
+
+def bisim(check: Check, world_spec, K: int, H: int):
+    """one-step bisimulation check of the key abstraction for this world (DESIGN.md 2.3); a mismatch is a HARNESS problem
+    (the abstraction merged states with different futures), reported as exit 2, never as a property verdict"""
+    from .bisim import check as run
+
+    r = run(world_spec, K=K, H=H)
+    log(f"  [bisim {r['world']}] K={K} H={H}: {r['concrete_states']} concrete states in {r['abstract_states']} abstract states, "
+        f"{r['groups_with_several_members']} merged groups, {r['successor_comparisons']} successor comparisons, {len(r['mismatches'])} mismatches")
+    check.coverage.setdefault("abstraction_bisimulation", []).append({k: v for k, v in r.items() if k != "mismatches"})
+    if r["mismatches"]:
+        raise RuntimeError(f"key abstraction is not a bisimulation in {r['world']}: {r['mismatches'][:2]}")
